@@ -274,9 +274,9 @@ def Metric.fields {α : Type} : Metric α → List Field
   | .sum f | .min f | .max f | .maxFrom f _ | .avg f => [f]
   | .wavg f w => [f, w]
 
-/-- Two facts about the code that decide which fields get loaded, and how often. They describe the tree the
-model was transcribed from; after a repair of the code the corresponding constant of `codeFacts` changes and
-the correspondence run says so (model and implementation disagree until it does). -/
+/-- Two facts about the code that decide which fields get loaded, and how often. The facts of the tree under
+check are regenerated from its source on every run (`go/extract/c16.go` → `BlugeGen.C16` →
+`Bluge.Agg.codeFacts` in `Bluge/C16/Code.lean`). -/
 structure CodeFacts where
   /-- the list of needed fields is de-duplicated before the document values are loaded -/
   dedupNeeded : Bool
@@ -284,18 +284,14 @@ structure CodeFacts where
   rangeFieldsNested : Bool
 deriving DecidableEq, Repr
 
-/-- the pinned tree: `neededFields = append(sort.Fields(), aggs.Fields()...)` is used as is, and
+/-- the tree as first pinned (before the repairs 3f12f0c, 527db82): `neededFields = append(sort.Fields(), aggs.Fields()...)` is used as is, and
 `RangeAggregation.Fields()` returns only `a.src.Fields()` -/
 def pinnedFacts : CodeFacts := { dedupNeeded := false, rangeFieldsNested := false }
 
 /-- the code with both repairs -/
 def fixedFacts : CodeFacts := { dedupNeeded := true, rangeFieldsNested := true }
 
-/-- THE CODE AS IT IS NOW (the one constant to change after a repair of /repo; `BlugeProofs.C16.c16_status`
-then decides the property for it, and the correspondence run checks the choice against the real code) -/
-def codeFacts : CodeFacts := pinnedFacts
-
-/-- `Fields()` of each aggregation. NOTE in the pinned tree `RangeAggregation.Fields` and
+/-- `Fields()` of each aggregation. NOTE with `rangeFieldsNested = false` (the tree as first pinned) `RangeAggregation.Fields` and
 `DateRangeAggregation.Fields` return only `a.src.Fields()` — the nested aggregations' fields are not
 included; `TermsAggregation.Fields` does include them. -/
 def Agg.fields {α : Type} (cf : CodeFacts) : Agg α → List Field
